@@ -3,3 +3,6 @@ import RedisVerif.Model.Crdt
 import RedisVerif.Lemmas.NMap
 import RedisVerif.Lemmas.Crdt
 import RedisVerif.Props.C07
+import RedisVerif.Model.Wal
+import RedisVerif.Lemmas.Wal
+import RedisVerif.Props.C10
